@@ -45,6 +45,12 @@ func storedLog() (*hist, *ipfslog.IPFSLog) {
 				panic(err)
 			}
 		}
+		if vx.Param("TOP", 0) == 1 {
+			// one more entry on top of the merge: an entry with R predecessors
+			if _, err := h.logs[0].Append(ctx, []byte("top"), nil); err != nil {
+				panic(err)
+			}
+		}
 		return h, h.logs[0]
 	}
 	h := newHist(cfg)
@@ -276,6 +282,10 @@ func H_C10() {
 	vx.Assert("C10", len(got) == wantN, "exactly min(max(n,k),size) entries are loaded")
 	vx.Assert("C10", subset(supplied, hashSet(got)), "all supplied starting entries are loaded")
 	vx.Assert("C10", sameSet(hashSet(got), want), "the supplied entries plus the most recent others in the log's order are loaded")
+	// the loaded log presents what it holds: every loaded entry is reachable from its heads
+	nv := N.Values().Slice()
+	vx.Assert("C10", len(nv) == len(got) && sameSet(hashSet(nv), hashSet(got)), "the linearised view of the loaded log contains every loaded entry")
+	vx.Assert("C10", sameSet(hashSet(N.Heads().Slice()), refHeads(got)), "the heads of the loaded log are its unreferenced entries")
 	vx.Observe("n", len(got))
 	vx.Cover("limited-" + loaderNames[loader])
 	func() {
